@@ -5,6 +5,7 @@ import (
 	"fmt"
 	"io"
 	"log/slog"
+	"math"
 	"net/http"
 	"strconv"
 	"strings"
@@ -190,10 +191,12 @@ func parseRangeHeader(rangeHeader string) ([]storage.ByteRange, error) {
 		} else if start != nil {
 			// Normal range: convert inclusive end to exclusive end
 			var exclusiveEnd *int64
-			if end != nil {
+			if end != nil && *end < math.MaxInt64 {
 				excEnd := *end + 1
 				exclusiveEnd = &excEnd
 			}
+			// A last-byte-pos of MaxInt64 cannot be incremented; it lies beyond
+			// any object, so the range is simply open-ended.
 			ranges = append(ranges, storage.ByteRange{Start: start, End: exclusiveEnd})
 		}
 	}
